@@ -154,8 +154,8 @@ func Verif_C10_remove() {
 // H10d: two keys; Drain hands every still-pending task exactly once to the
 // drain function, and none of them fires later.
 func Verif_C10_drain() {
-	c := verifCase(verifParam("maxSlots") * 4) // (slots-1, pre-drain op)
-	n := c/4 + 1
+	c := verifCase(verifParam("maxSlots") * 6) // (slots-1, pre-drain op)
+	n := c/6 + 1
 	I := time.Duration(verifParam("interval"))
 	env := verifNewWheel(n, I)
 	env.w.tickedPos = verifChoose("phase", n)
@@ -170,8 +170,8 @@ func Verif_C10_drain() {
 	verifAssert(firedB == verifIte(steps2 <= a, 1, 0), "drain: b fired before the drain iff its tick has passed")
 	// optionally remove a / move b / re-set b right before the drain (moved
 	// and removed entries leave tombstones in the slots)
-	op := c % 4
-	wantA, wantB, valB := 1-firedA, 1-firedB, 2
+	op := c % 6
+	wantA, wantB, valA, valB := 1-firedA, 1-firedB, 1, 2
 	switch op {
 	case 1:
 		env.w.removeTask("a")
@@ -183,6 +183,17 @@ func Verif_C10_drain() {
 		d3, _ := verifDelay("d3", n, I)
 		env.w.setTask(&timingEntry{baseEntry: baseEntry{delay: d3, key: "b"}, value: 3})
 		wantB, valB = 1, 3
+	case 4: // remove a, then set it again with another value: the removed generation must not be drained
+		env.w.removeTask("a")
+		d3, _ := verifDelay("d3", n, I)
+		env.w.setTask(&timingEntry{baseEntry: baseEntry{delay: d3, key: "a"}, value: 4})
+		wantA, valA = 1, 4
+	case 5: // move b, then re-set it with another value
+		d3, _ := verifDelay("d3", n, I)
+		env.w.moveTask(baseEntry{delay: d3, key: "b"})
+		d4, _ := verifDelay("d4", n, I)
+		env.w.setTask(&timingEntry{baseEntry: baseEntry{delay: d4, key: "b"}, value: 3})
+		wantB, valB = 1, 3
 	}
 	var drained []verifFire
 	env.w.drainAll(func(k, v any) { drained = append(drained, verifFire{k, v, 0}) })
@@ -191,7 +202,7 @@ func Verif_C10_drain() {
 	for _, f := range drained {
 		if f.key == "a" {
 			da++
-			verifAssert(f.val == 1, "drain: a drained with its value")
+			verifAssert(f.val == valA, "drain: a drained with its most recent value")
 		}
 		if f.key == "b" {
 			db++
